@@ -205,6 +205,10 @@ def run(ctx):
             t = gen.rtableau(rng, ctx.model, n)
             obs = [gen.rpauli(rng, n, herm=True) if rng.random() < 0.5 else [t[0][rng.randrange(n)][0], rng.choice([0, 2])] for _ in range(L)]
             do(ctx, 'expect_corr', [be, t, obs], nontrivial=('long', be, L))
+    for N, r in ((62, 62), (63, 63), (64, 63), (64, 64), (65, 64), (65, 65), (70, 66)):
+        t = gen.rtableau(rng, ctx.model, N, r=0, depth=3)
+        u = [t[0], r] if rng.random() < 0.5 else gen.rtableau(rng, ctx.model, N, r=r, depth=2)      # (the same rows with most of them inactive: non-zero overlap 2^-r)
+        do(ctx, 'overlap', ['np', t, u], nontrivial=('bigov', N, r))
     # LARGE registers: byte, word and cache-line boundaries of every packed or vectorised representation (8, 9, 16, 17, 33, 64, 65 qubits); model correspondence only
     for n in gen.BIG:
         for be in ('np', 'torch'):
